@@ -21,6 +21,28 @@ type C01Case struct {
 	Opts Opts `json:"opts,omitempty"`
 	// Scale: large table: t is expanded from the rows of the document by this recipe before anything is computed
 	Scale *Scale `json:"scale,omitempty"`
+	// Alias: the table is read under an alias (`FROM t x WHERE x.col ...`): every column of the predicate is
+	// qualified and every kept row comes back as {x: row}
+	Alias bool `json:"alias,omitempty"`
+}
+
+// qualifyCols returns a copy of the predicate whose column references (not those inside the WHERE of an
+// IN-subquery, which belong to the subquery's own table) are written as <alias>.<col>.
+func qualifyCols(e *sq.E, alias string) *sq.E {
+	n := *e
+	if e.K == "col" {
+		n.S = alias + "." + e.S
+		return &n
+	}
+	n.A = make([]*sq.E, len(e.A))
+	for i, a := range e.A {
+		if e.K == "insub" && i > 0 {
+			n.A[i] = a
+			continue
+		}
+		n.A[i] = qualifyCols(a, alias)
+	}
+	return &n
 }
 
 func init() {
@@ -103,6 +125,10 @@ func genC01(t *rapid.T) any {
 	c.Scale = genScale(t, 20, "scale")
 	if c.Scale != nil && len(tb.Rows) == 0 {
 		c.Scale = nil
+	}
+	if rapid.IntRange(0, 5).Draw(t, "alias") == 0 {
+		c.Alias = true
+		c.SQL = "SELECT * FROM t x WHERE " + sq.Render(qualifyCols(pred, "x"), nil)
 	}
 	return c
 }
@@ -222,9 +248,24 @@ func checkC01(c *C01Case) Result {
 	res.NonTrivial = len(rows) >= 2 && len(keep) > 0 && len(keep) < len(rows)
 
 	live := c.engineDoc()
+	from, wrap := "SELECT * FROM t WHERE ", func(rows []any) []any { return rows }
+	where := func(p *sq.E) string { return sq.Render(p, nil) }
+	if c.Alias {
+		from = "SELECT * FROM t x WHERE "
+		where = func(p *sq.E) string { return sq.Render(qualifyCols(p, "x"), nil) }
+		wrap = func(rows []any) []any {
+			out := make([]any, len(rows))
+			for i, r := range rows {
+				out[i] = map[string]any{"x": r}
+			}
+			return out
+		}
+		res.Labels = append(res.Labels, "aliased-table")
+	}
+	keep, drop = wrap(keep), wrap(drop)
 	sql := c.SQL
 	if sql == "" {
-		sql = "SELECT * FROM t WHERE " + sq.Render(c.Pred, nil)
+		sql = from + where(c.Pred)
 	}
 	out := Run(live, sql, c.Opts)
 	res.Execs++
@@ -237,7 +278,7 @@ func checkC01(c *C01Case) Result {
 		return res
 	}
 	// negation: complement, in source order
-	nsql := "SELECT * FROM t WHERE NOT (" + sq.Render(c.Pred, nil) + ")"
+	nsql := from + "NOT (" + where(c.Pred) + ")"
 	nout := Run(live, nsql, c.Opts)
 	res.Execs++
 	if !nout.OK() || !seqEqual(nout.Rows, drop) {
@@ -250,7 +291,7 @@ func checkC01(c *C01Case) Result {
 	}
 	// defining expansions, engine vs engine
 	if rw, changed := rewriteSugar(c.Pred); changed {
-		rsql := "SELECT * FROM t WHERE " + sq.Render(rw, nil)
+		rsql := from + where(rw)
 		rout := Run(live, rsql, c.Opts)
 		res.Execs++
 		if !rout.OK() || !seqEqual(rout.Rows, out.Rows) {
